@@ -86,7 +86,7 @@ class NslParser:
     def p_module_8(self, p):
         """module : module import_statement"""
         p[0] = p[1]
-        p[0].AddImport(p[1])
+        p[0].AddImport(p[2])
 
     def p_string_literal(self, p):
         """string_literal : STRING_LITERAL"""
